@@ -120,10 +120,19 @@ func (m *vFS) dirByPath(p string) *vDir {
 	return nil
 }
 
+// vScanGen counts directory listings: what a file "contains" may carry the generation in which it was read, so that a
+// harness can tell whether two results stem from one scan (one snapshot of the directory) or from two
+var vScanGen int
+var vTagGen bool
+
 func vRawSpec(f *vFile) *cdi.Spec {
 	raw := &cdi.Spec{Version: "0.6.0", Kind: f.vendor + "/c"}
 	for _, n := range f.devs {
-		raw.Devices = append(raw.Devices, cdi.Device{Name: n, ContainerEdits: cdi.ContainerEdits{Env: []string{"DEV=" + n}}})
+		env := []string{"DEV=" + n}
+		if vTagGen {
+			env = []string{"GEN" + n + "=" + string(rune('0'+vScanGen))}
+		}
+		raw.Devices = append(raw.Devices, cdi.Device{Name: n, ContainerEdits: cdi.ContainerEdits{Env: env}})
 	}
 	return raw
 }
@@ -214,6 +223,7 @@ func (e *vErr) Error() string { return e.s }
 func stubReadDirNames(dirname string) ([]string, error) {
 	m := vfs
 	if d := m.dirByPath(dirname); d != nil {
+		vScanGen++
 		if d.state == vDirUnread {
 			return nil, vPathErr("open", vEACCES)
 		}
